@@ -265,7 +265,17 @@ impl PackHeader {
         // guess the header size from size_hint and pack_size
         // If the guess is too small, we have to re-read. If the guess is too large, we have to have read too much
         // but this should normally not matter too much. So we try to overguess here...
-        let size_guess = size_hint.unwrap_or(0);
+        // a (truncated) pack file may be smaller than the length field or than the guess
+        if pack_size < constants::LENGTH_LEN {
+            return Err(RusticError::new(
+                ErrorKind::Internal,
+                "Pack file of size `{pack_size}` is too small to contain a pack header length!",
+            )
+            .attach_context("pack_size", pack_size.to_string()));
+        }
+        let size_guess = size_hint
+            .unwrap_or(0)
+            .min(pack_size - constants::LENGTH_LEN);
 
         // read (guessed) header + length field
         let read_size = size_guess + constants::LENGTH_LEN;
